@@ -437,6 +437,42 @@ theorem C01_genid_usable_update (cfg : Cfg M K R) (h : EqRefl cfg.ops) (s : CSta
       obtain ⟨e1, _⟩ := res _ _ _ hr
       subst e1; rw [habs] at hl'; cases hl'
 
+/-- `EmptyWriteOption` / `EmptyReadOption` (and, for Get/List, the Pull-only read options) mean nothing:
+dropping every one of them from an option list, wherever they stand, leaves the computed request — hence
+the call — unchanged. -/
+theorem C01_empty_options (ops : MsgOps M K) (cat : K → K → K) (wopts : List (WOpt M K)) (ropts : List (ROpt M K)) :
+    computeWriteConfig ops cat (wopts.filter (fun o => !o.isEmpty)) = computeWriteConfig ops cat wopts ∧
+    computeReadConfig (ropts.filter (fun o => !o.isOther)) = computeReadConfig ropts := by
+  constructor
+  · unfold computeWriteConfig
+    generalize ({} : WriteReq M K) = wr
+    induction wopts generalizing wr with
+    | nil => rfl
+    | cons o os ih =>
+      cases he : o.isEmpty with
+      | true =>
+        have : o = .empty := by cases o <;> simp [WOpt.isEmpty] at he ⊢
+        subst this
+        simp only [List.filter_cons, he, Bool.not_true, Bool.false_eq_true, ↓reduceIte, List.foldl_cons, applyW]
+        exact ih wr
+      | false =>
+        simp only [List.filter_cons, he, Bool.not_false, ↓reduceIte, List.foldl_cons]
+        exact ih _
+  · unfold computeReadConfig
+    generalize ({} : ReadReq M K) = rr
+    induction ropts generalizing rr with
+    | nil => rfl
+    | cons o os ih =>
+      cases he : o.isOther with
+      | true =>
+        have : o = .other := by cases o <;> simp [ROpt.isOther] at he ⊢
+        subst this
+        simp only [List.filter_cons, he, Bool.not_true, Bool.false_eq_true, ↓reduceIte, List.foldl_cons, applyR]
+        exact ih rr
+      | false =>
+        simp only [List.filter_cons, he, Bool.not_false, ↓reduceIte, List.foldl_cons]
+        exact ih _
+
 /-! ## Non-vacuity -/
 
 /-- order matters, as in the code: a nil mask after a mask reads everything, a mask after a nil mask
